@@ -6,7 +6,7 @@ Never touches /repo's working tree.  Usage: tools/drill.py [name ...]   (default
 Writes /verif/seeded/RESULTS.md."""
 import os, sys, json, subprocess, glob, shutil, time
 ROOT = os.path.dirname(os.path.dirname(os.path.abspath(__file__)))
-WT = "/tmp/wt-drill"
+WT = os.environ.get("DRILL_WT", "/tmp/wt-drill")
 
 def sh(cmd, **kw): return subprocess.run(cmd, shell=True, stdout=subprocess.PIPE, stderr=subprocess.STDOUT, text=True, **kw)
 
